@@ -94,7 +94,16 @@ fn conditions(db: &Db, l: &MSelect, r: &MSelect) -> Vec<MExpr> {
         MExpr::Or(Box::new(bin(Bin::Eq, col(&last_r), lit(2))), Box::new(bin(Bin::Gt, col(&first_l), lit(1)))),
         bin(Bin::Eq, col("NoSuch.Column"), col(&first_r)),
         bin(Bin::Eq, col(&first_l), col("K_unknown")),
+        // names are case-sensitive: a spelling that differs only in letter case names no column
+        bin(Bin::Eq, col(&swapcase(&first_l)), col(&first_r)),
+        bin(Bin::Eq, col(&first_l), col(&swapcase(&last_r))),
     ]
+}
+
+
+
+fn swapcase(s: &str) -> String {
+    s.chars().map(|c| if c.is_ascii_lowercase() { c.to_ascii_uppercase() } else { c.to_ascii_lowercase() }).collect()
 }
 
 fn with_tops(db: &Db, j: MSelect, out: &mut Vec<MSelect>) {
@@ -108,6 +117,11 @@ fn with_tops(db: &Db, j: MSelect, out: &mut Vec<MSelect>) {
             out.push(j.clone().columns(&[c1, c0]));
             out.push(j.clone().columns(&[c0]).with(bin(Bin::Ge, col(c1), col(c0))));
         }
+    }
+    if let Ok(rel) = eval_select(db, &j) {
+        let c0 = swapcase(&rel.cols[0]);
+        out.push(j.clone().with(bin(Bin::Eq, col(&c0), lit(1))));
+        out.push(j.clone().columns(&[c0.as_str()]));
     }
     out.push(j.clone().columns(&["Unknown.Col"]));
     out.push(j.with(bin(Bin::Eq, col("Unknown.Col"), lit(1))));
@@ -214,7 +228,7 @@ fn run_random(rep: &mut Report, seed: u64, case: u64) {
         let other = rng.pick(&lv).clone();
         let (l, r) = if rng.chance(1, 2) { (cur.clone(), other) } else { (other, cur.clone()) };
         let conds = conditions(&db, &l, &r);
-        let c = conds[rng.usize(conds.len().saturating_sub(2).max(1))].clone();
+        let c = conds[rng.usize(conds.len().saturating_sub(4).max(1))].clone();
         cur = MSelect::join(if rng.chance(1, 2) { JoinKind::Inner } else { JoinKind::Left }, l, r, c);
     }
     rep.case(Some(fnv(format!("rnd:{}:{}:{}", cur.show(), ca, cb).as_bytes())));
